@@ -207,6 +207,8 @@ class Session:
             tmpdir = self.base / tmpdir
         obs.tmpdir = tmpdir
         obs.tmp = list_tmp(Path(tmpdir)) if tmpdir is not None and Path(tmpdir).is_dir() else []
+        obs.tmp_names = sorted(os.listdir(tmpdir)) if tmpdir is not None and Path(tmpdir).is_dir() else []
+        obs.ext = os.path.splitext(str(self.path))[1]
         obs.calls = list(self.test.calls)
         obs.trace = list(self.test.trace)
         obs.tested = self.spied[spied_from:]
@@ -349,6 +351,11 @@ def mon_c12(ctx, obs, orig, case, single_run_only=True):
             ctx.fail("tagged-copy", f"after the run {tag} holds {names.get(tag)!r}; during test {k + 1} the file held {c['disk']!r}", case)
     if o.count != len(calls):
         ctx.fail("count", f"test_count={o.count} but {len(calls)} tests ran", case)
+    ext = getattr(o, "ext", None)
+    if ext:
+        odd = [n for n in getattr(o, "tmp_names", []) if (n.startswith("original") or n.split("-")[0].isdigit()) and not n.endswith(ext)]
+        if odd:
+            ctx.fail("tagged-copy", f"files in the temp directory without the testcase's extension {ext!r}: {odd[:4]}", case)
     seen = {}
     for k, c in enumerate(calls):
         d = c["disk"]
